@@ -368,6 +368,55 @@ pub fn k02_sep(thorough: bool) -> Vec<G> {
     out
 }
 
+/// links of an iterable chain: every kind of iterable parser, with items that emit / consume two tokens
+pub fn k02_parts(thorough: bool) -> Vec<Part> {
+    let mut v = vec![];
+    let items: Vec<G> = if thorough { vec![Just('a'), Just('b'), JustSeq('a', 'b'), Validate(b(OneOf("ab")), 1)] } else { vec![Just('a'), Just('b'), Validate(b(JustSeq('a', 'b')), 1)] };
+    for it in &items {
+        for bd in [Bounds::STAR, Bounds::new(1, None), Bounds::new(0, Some(1)), Bounds::new(1, Some(2)), Bounds::new(2, Some(2))] {
+            v.push(Part::Rep(b(it.clone()), bd));
+        }
+        v.push(Part::Opt(b(it.clone())));
+    }
+    for (l, t) in [(false, false), (true, false), (false, true), (true, true)] {
+        for bd in [Bounds::STAR, Bounds::new(1, Some(2))] {
+            v.push(Part::Sep(b(Just('a')), b(Just(',')), bd, l, t));
+        }
+    }
+    v.push(Part::Sep(b(Validate(b(Just('b')), 1)), b(Validate(b(Just(',')), 2)), Bounds::STAR, false, true));
+    // into_iter(): zero, one or several items (the items of an into_iter() link consume nothing themselves)
+    v.push(Part::Iter(b(OrNot(b(Just('a'))))));
+    v.push(Part::Iter(b(Just('b'))));
+    v.push(Part::Iter(b(Rep(b(Just('a')), Bounds::STAR, Sink::Vec))));
+    v
+}
+
+pub fn k02_chain_sinks() -> Vec<Sink> {
+    vec![Sink::Vec, Sink::Count, Sink::Bare, Sink::Exactly(1), Sink::Exactly(2), Sink::Foldl(b(Empty)), Sink::Foldr(b(OrNot(b(Just('c')))))]
+}
+
+/// `IterParser for Then` / `IterParser for OrNot`: every single or_not link and every pair of links x sinks,
+/// each followed by a rest capture
+pub fn k02_chain(thorough: bool) -> Vec<G> {
+    let ps = k02_parts(thorough);
+    let mut out = vec![];
+    for p in &ps {
+        if matches!(p, Part::Opt(_)) {
+            for s in k02_chain_sinks() {
+                out.push(with_rest(IterChain(vec![p.clone()], s)));
+            }
+        }
+    }
+    for p in &ps {
+        for q in &ps {
+            for s in k02_chain_sinks() {
+                out.push(with_rest(IterChain(vec![p.clone(), q.clone()], s)));
+            }
+        }
+    }
+    out
+}
+
 // ---- decorations (C11, C17): wrap every node of a subset --------------------------------------------
 
 /// Rebuild `g` wrapping the nodes whose pre-order index is in `mask` with `wrap`.
@@ -437,6 +486,10 @@ pub fn map_children(g: &G, f: &mut dyn FnMut(&G) -> G) -> G {
         IntoIter(a, s) => {
             let a = bx(a);
             IntoIter(a, sink(s, &mut bx))
+        }
+        IterChain(ps, s) => {
+            let ps: Vec<Part> = ps.iter().map(|p| p.map(&mut |g| *bx(g))).collect();
+            IterChain(ps, sink(s, &mut bx))
         }
         Rep(a, bd, s) => {
             let a = bx(a);
